@@ -74,9 +74,10 @@ PLAIN = ["top", "sub", "q", "data", "state", "goal"]
 
 
 class Gen(object):
-    def __init__(self, rng, size=1.0):
+    def __init__(self, rng, size=1.0, deep=False):
         self.rng = rng
         self.size = size
+        self.deep = deep       # chain of nested clones, every level with an inode of its own
         self.nref = 0
         self.framers = []      # {'i','name','sched','via','frames':[{'j','name','over','via','stmts','auxes'}]}
         self.actors = []       # list of parts lists
@@ -229,6 +230,8 @@ class Gen(object):
         rng = self.rng
         names = rng.sample(FRAMER_NAMES, 6)
         scheds = ["active"] * rng.choice([1, 2, 2]) + (["aux"] if rng.random() < 0.6 else []) + ["moot"] * rng.choice([1, 2, 2, 2])
+        if self.deep:
+            scheds = ["active"] + ["moot"] * rng.choice([2, 3, 3])
         for i, sched in enumerate(scheds):
             fr = {"i": i, "name": names[i], "sched": sched, "via": None, "frames": []}
             self.framers.append(fr)
@@ -254,6 +257,8 @@ class Gen(object):
         for k, mi in enumerate(moots):
             for c in range(rng.choice([1, 1, 2])):
                 hosts = list(range(nact)) + (moots[:k] * 2 if rng.random() < 0.8 else [])
+                if self.deep and c == 0:
+                    hosts = [moots[k - 1]] if k else [0]      # active -> clone -> clone in clone -> ...
                 host = self.framers[rng.choice(hosts)]
                 d = {"kind": rng.choice(["named", "named", "mine"]), "target": mi, "via": None, "tag": None}
                 if d["kind"] == "named":
@@ -266,7 +271,7 @@ class Gen(object):
             self.ninst[inst.fi] = self.ninst.get(inst.fi, 0) + 1
         # inodes and statements (after all names exist so literals can reuse them)
         for i, fr in enumerate(self.framers):
-            if rng.random() < 0.55:
+            if rng.random() < (0.9 if self.deep else 0.55):
                 fr["via"] = self.inode(i)
             for x in fr["frames"]:
                 if rng.random() < 0.45:
@@ -277,7 +282,14 @@ class Gen(object):
                 for d in x["auxes"]:
                     if d["kind"] != "plain":
                         k = rng.random()
-                        if k < 0.3:
+                        if self.deep:
+                            if k < 0.15:
+                                d["via"] = "mine"
+                            elif k < 0.9:
+                                d["via"] = self.inode(i)
+                                if rng.random() < 0.4 and d["via"]["form"] != "abs":
+                                    d["via"].update(form="abs", fsel=None, xsel=None, asel=None)
+                        elif k < 0.3:
                             d["via"] = "mine"
                         elif k < 0.65:
                             d["via"] = self.inode(i)
@@ -298,8 +310,8 @@ class Gen(object):
         return {"framers": self.framers, "naming": naming, "nref": self.nref}
 
 
-def gen_program(rng, size=1.0):
-    return Gen(rng, size).program()
+def gen_program(rng, size=1.0, deep=False):
+    return Gen(rng, size, deep).program()
 
 
 # --------------------------------------------------------------------------- renderer
